@@ -110,7 +110,8 @@ class WhenProp:
                     g = abs(b - a)
                     val = (t + rnd.choice([-g, -g // 2, -1, 0, 1, g // 2, g - 1, g])) * NS_S
             elif kind == 'postd':
-                val = rnd.choice([0, -NS_S, NS_S, 1_000, 125 * NS_MS, -125 * NS_MS, 3600 * NS_S])
+                # 0.1 / 0.4: durations below the resolution of the library (1 ns): zero, hence not positive
+                val = rnd.choice([0, -NS_S, NS_S, 1_000, 125 * NS_MS, -125 * NS_MS, 3600 * NS_S, 0.1, 0.4])
             else:
                 val = 0
             cases.append((tzname, now, kind, val, form))
@@ -122,9 +123,12 @@ class WhenProp:
             try:
                 try:
                     if kind == 'postd':
-                        arg = [TimeDelta(nanoseconds=val), dtm.timedelta(microseconds=val // 1000), val / 1e9, val / 1e9][form]
-                        if form == 1 and val % 1000:
-                            arg = TimeDelta(nanoseconds=val)
+                        if isinstance(val, float):
+                            arg = val / 1e9
+                        else:
+                            arg = [TimeDelta(nanoseconds=val), dtm.timedelta(microseconds=val // 1000), val / 1e9, val / 1e9][form]
+                            if form == 1 and val % 1000:
+                                arg = TimeDelta(nanoseconds=val)
                         r = get_pos_timedelta_secs(arg)
                         res = f'ok {round(r * 1e9)}'
                     else:
@@ -169,7 +173,7 @@ class WhenProp:
             elif kind == 'aware':
                 msg = None if res == f'ok {val}' else f'an aware datetime / SystemDateTime / Instant for {val} gave {res}'
             elif kind == 'postd':
-                want = f'ok {val}' if val > 0 else 'err ValueError'
+                want = f'ok {val}' if int(val) > 0 else 'err ValueError'
                 msg = None if res == want else f'duration {val} ns: get_pos_timedelta_secs gave {res}, expected {want}'
             elif kind == 'naive':
                 naive = dtm.datetime(1970, 1, 1) + dtm.timedelta(microseconds=val // 1000)
@@ -188,7 +192,7 @@ class WhenProp:
                             self.known(tzname, now, kind, val, res))
                 pending[(tzname, now, kind, val, form)] = f
                 run.findings.append(f)
-            mk = {'postd': f'postd {val}'}.get(kind, f'getinstant {now} {kind} {val}')
+            mk = {'postd': f'postd {int(val)}'}.get(kind, f'getinstant {now} {kind} {val}')
             lines_by_zone.setdefault(tzname, []).append((mk, res, (tzname, now, kind, val, form)))
         for tzname, items in lines_by_zone.items():
             model = [b[0] if b else '' for b in run_model([zone_line(tzname)] + [m for m, _, _ in items])[1:]]
